@@ -1264,7 +1264,7 @@ seq_t dtw_warping_paths_ndim(seq_t *wps,
     // D. Rows: MAX(overlap_left_ri, overlap_right_ri) < ri <= l1
     // [x 0 0 0 0]
     // [x x 0 0 0]
-    min_ci = MAX(0, p.ri3 + 1 - p.window - p.ldiff );
+    min_ci = MAX(0, p.ri3 + 1 - p.window - p.ldiffr );
     wpsi_start = 2;
     if (p.ri2 == p.ri3) {
         // C is skipped
@@ -1645,7 +1645,7 @@ seq_t dtw_warping_paths_ndim_euclidean(seq_t *wps,
     // D. Rows: MAX(overlap_left_ri, overlap_right_ri) < ri <= l1
     // [x 0 0 0 0]
     // [x x 0 0 0]
-    min_ci = MAX(0, p.ri3 + 1 - p.window - p.ldiff );
+    min_ci = MAX(0, p.ri3 + 1 - p.window - p.ldiffr );
     wpsi_start = 2;
     if (p.ri2 == p.ri3) {
         // C is skipped
@@ -1909,7 +1909,7 @@ void dtw_expand_wps_slice(seq_t *wps, seq_t *full,
     }
 
     // D. Rows: MAX(overlap_left_ri, overlap_right_ri) < ri <= l1
-    min_ci = p.ri3 + 1 - p.window - p.ldiff;
+    min_ci = p.ri3 + 1 - p.window - p.ldiffr;
     wpsi_start = 2;
     if (p.ri2 == p.ri3) {
         // C is skipped
@@ -2144,7 +2144,7 @@ seq_t dtw_warping_paths_affinity_ndim(seq_t *wps,
     // D. Rows: MAX(overlap_left_ri, overlap_right_ri) < ri <= l1
     // [x 0 0 0 0]
     // [x x 0 0 0]
-    min_ci = MAX(0, p.ri3 + 1 - p.window - p.ldiff );
+    min_ci = MAX(0, p.ri3 + 1 - p.window - p.ldiffr );
     wpsi_start = 2;
     if (p.ri2 == p.ri3) {
         // C is skipped
@@ -2482,7 +2482,7 @@ seq_t dtw_warping_paths_affinity_ndim_euclidean(seq_t *wps,
     // D. Rows: MAX(overlap_left_ri, overlap_right_ri) < ri <= l1
     // [x 0 0 0 0]
     // [x x 0 0 0]
-    min_ci = MAX(0, p.ri3 + 1 - p.window - p.ldiff );
+    min_ci = MAX(0, p.ri3 + 1 - p.window - p.ldiffr );
     wpsi_start = 2;
     if (p.ri2 == p.ri3) {
         // C is skipped
@@ -2742,7 +2742,7 @@ void dtw_expand_wps_slice_affinity(seq_t *wps, seq_t *full,
     }
 
     // D. Rows: MAX(overlap_left_ri, overlap_right_ri) < ri <= l1
-    min_ci = p.ri3 + 1 - p.window - p.ldiff;
+    min_ci = p.ri3 + 1 - p.window - p.ldiffr;
     wpsi_start = 2;
     if (p.ri2 == p.ri3) {
         // C is skipped
@@ -3298,7 +3298,7 @@ idx_t dtw_best_path(seq_t *wps, idx_t *i1, idx_t *i2, idx_t l1, idx_t l2,
     idx_t ri_width = p.width * rip;
 
     // D. ri3 <= ri < l1
-    min_ci = p.ri3 + 1 - p.window - p.ldiff;
+    min_ci = p.ri3 + 1 - p.window - p.ldiffr;
     wpsi_start = 2;
     if (p.ri2 == p.ri3) {
         wpsi_start = min_ci + 1;
@@ -3536,7 +3536,7 @@ idx_t dtw_best_path_isclose(seq_t *wps, idx_t *i1, idx_t *i2, idx_t l1, idx_t l2
     idx_t ri_width = p.width * rip;
 
     // D. ri3 <= ri < l1
-    min_ci = p.ri3 + 1 - p.window - p.ldiff;
+    min_ci = p.ri3 + 1 - p.window - p.ldiffr;
     wpsi_start = 2;
     if (p.ri2 == p.ri3) {
         wpsi_start = min_ci + 1;
@@ -3797,7 +3797,7 @@ idx_t dtw_best_path_prob(seq_t *wps, idx_t *i1, idx_t *i2, idx_t l1, idx_t l2, s
     // printf("avg = %f\n", avg);
     
     // D. ri3 <= ri < l1
-    min_ci = p.ri3 + 1 - p.window - p.ldiff;
+    min_ci = p.ri3 + 1 - p.window - p.ldiffr;
     wpsi_start = 2;
     if (p.ri2 == p.ri3) {
         // C is skipped
@@ -5091,7 +5091,7 @@ void dtw_print_wps(seq_t * wps, idx_t l1, idx_t l2, DTWSettings* settings) {
     }
     
     // D. Rows: MAX(overlap_left_ri, overlap_right_ri) < ri <= l1
-    min_ci = p.ri3 + 1 - p.window - p.ldiff;
+    min_ci = p.ri3 + 1 - p.window - p.ldiffr;
     wpsi_start = 2;
     if (p.ri2 == p.ri3) {
         // C is skipped
